@@ -106,9 +106,18 @@ def streams(tier, rng):
         reg = T.rand_registry(rng, max_items=6, max_args=3)
         exact, pos, skip = T.rand_filters(rng, reg) if rng.random() < 0.3 else (False, [], [])
         rt.append(reg.line("TE", ign=rng.choice("nnoy"), exact=exact, pos=pos, skip=skip))
+    # combinations and orders of the action flags (--list --bench is what `cargo bench -- --list` passes)
+    combos = []
+    while len(combos) < (1200 if big else 120):
+        reg = T.rand_registry(rng, max_items=5, max_args=3)
+        exact, pos, skip = T.rand_filters(rng, reg) if rng.random() < 0.3 else (False, [], [])
+        combos.append(reg.line("R" + "".join(rng.sample("abcdfghjk", rng.randrange(3, 7))), ign=rng.choice("nnoy"), exact=exact, pos=pos, skip=skip))
     out = []
     if corpus:
         out.append(Stream("corpus", "c14", corpus, nontrivial=nt, hist=hist_of(corpus)))
+    out.append(Stream("flag-combinations", "c14", combos, nontrivial=nt,
+                      describe="--list --bench, --bench --list, terse variants under NEXTEST=1 with --bench, --test --bench, --bench --test, "
+                               "no action flag, --list --test (rejected by clap); the model's action_of_flags says which action results"))
     # generated crates using the attribute macros (the tour crate is the one C12 builds: cached)
     from props import c12, treeprog
     progs = [treeprog.feature_tour("e2e_tour")] + [treeprog.rand_program(rng, "e2e_l%d" % i, size=12) for i in range(1 if not big else 6)]
